@@ -4,6 +4,7 @@ package c12
 // layer, in-process and real-TCP transports, and the per-request judgement.
 
 import (
+	"Havoc/pkg/packager"
 	"bufio"
 	"bytes"
 	"encoding/binary"
@@ -64,14 +65,16 @@ type decoy struct {
 
 // lst is one started listener with its recorder and learnt decoy.
 type lst struct {
-	h     *handlers.HTTP
-	rec   *recorder
-	name  string
-	port  string
-	bind  string
-	start Cfg
-	edit  *Cfg
-	decoy decoy
+	h       *handlers.HTTP
+	rec     *recorder
+	name    string
+	port    string
+	bind    string
+	start   Cfg
+	edit    *Cfg
+	edits   int // run-time edits so far
+	editVia string
+	decoy   decoy
 }
 
 type env struct {
@@ -186,9 +189,38 @@ func (e *env) startListener(cfg Cfg, bind string) (*lst, error) {
 // handed over keeps the fields an edit cannot change (response headers; the redirector
 // flag is always the profile's), so "the new configuration" is unambiguous.
 func (e *env) editListener(l *lst, cfg Cfg) {
-	e.r.TS.ListenerEdit(handlers.LISTENER_HTTP, toHTTPConfig(l.name, cfg))
 	cp := cfg
 	l.edit = &cp
+	// every second edit arrives as an operator's Listener/Edit package (lists joined by
+	// ", " as the client sends them; it has no field for the redirector flag), unless an
+	// item contains ", " itself, which that form cannot carry
+	l.edits++
+	l.editVia = ""
+	if l.edits%2 == 0 && operatorForm(cfg) {
+		l.editVia = "operator"
+		e.c.Observe("edits-via-operator-package", 1)
+		e.r.TS.DispatchEvent(packager.Package{
+			Head: packager.Head{Event: packager.Type.Listener.Type, User: "alice", OneTime: "true"},
+			Body: packager.Body{SubEvent: packager.Type.Listener.Edit, Info: map[string]any{
+				"Name": l.name, "Protocol": handlers.AGENT_HTTP, "HostBind": l.bind, "Hosts": "127.0.0.1", "HostRotation": "round-robin",
+				"PortBind": l.port, "PortConn": "", "HostHeader": "", "UserAgent": cfg.UA, "Secure": "false", "Proxy Enabled": "false",
+				"Headers": strings.Join(cfg.Headers, ", "), "Uris": strings.Join(cfg.Uris, ", "),
+			}}})
+		return
+	}
+	e.r.TS.ListenerEdit(handlers.LISTENER_HTTP, toHTTPConfig(l.name, cfg))
+}
+
+// operatorForm: the configuration can be written as an operator package.
+func operatorForm(cfg Cfg) bool {
+	for _, l := range [][]string{cfg.Headers, cfg.Uris} {
+		for _, it := range l {
+			if it == "" || strings.Contains(it, ", ") {
+				return false
+			}
+		}
+	}
+	return true
 }
 
 // ---------------------------------------------------------------------------------------
